@@ -58,7 +58,7 @@ var validRuntimeAndFunctionErrors = map[ErrorType]struct{}{
 }
 
 func GetValidRuntimeOrFunctionErrorType(errorType string) ErrorType {
-	match, _ := regexp.MatchString("(Runtime|Function)\\.[A-Z][a-zA-Z]+", errorType)
+	match, _ := regexp.MatchString("^(Runtime|Function)\\.[A-Z][a-zA-Z]+$", errorType)
 	if match {
 		return ErrorType(errorType)
 	}
